@@ -19,8 +19,9 @@ pub enum Metadata {
 
 /// A ['ScriptLangTag'] value.
 ///
-/// This is currently just a string and we do not perform any validation,
-/// but we should do that (TK open issue)
+/// This is currently just a string; we only check that it survives being
+/// written into the comma-separated list (it is not empty, contains no comma
+/// and has no surrounding spaces), not that it is a well-formed BCP 47 tag.
 ///
 /// [`ScriptLangTag`]: https://learn.microsoft.com/en-us/typography/opentype/spec/meta#scriptlangtag-values
 #[derive(Clone, Debug, PartialEq, Eq, PartialOrd, Ord, Hash)]
@@ -34,7 +35,17 @@ pub struct InvalidScriptLangTag;
 
 impl ScriptLangTag {
     pub fn new(raw: String) -> Result<Self, InvalidScriptLangTag> {
-        Ok(Self(raw))
+        if Self::is_valid(&raw) {
+            Ok(Self(raw))
+        } else {
+            Err(InvalidScriptLangTag)
+        }
+    }
+
+    /// Tags are stored as a comma-separated list, and spaces around the
+    /// commas are ignored when reading.
+    fn is_valid(raw: &str) -> bool {
+        !raw.is_empty() && !raw.contains(',') && raw.trim_matches(' ') == raw
     }
 
     pub fn as_str(&self) -> &str {
@@ -52,12 +63,17 @@ impl std::error::Error for InvalidScriptLangTag {}
 
 impl DataMapRecord {
     fn validate_data_type(&self, ctx: &mut ValidationCtx) {
-        if matches!(
-            (self.tag, self.data.as_ref()),
-            (SLNG | DLNG, Metadata::Other(_))
-        ) {
-            ctx.report("'slng' or 'dlng' tags use ScriptLangTag data");
+        match (self.tag, self.data.as_ref()) {
+            (SLNG | DLNG, Metadata::Other(_)) => {
+                ctx.report("'slng' or 'dlng' tags use ScriptLangTag data")
+            }
+            // the variant is chosen from the tag when reading
+            (SLNG | DLNG, Metadata::ScriptLangTags(_)) | (_, Metadata::Other(_)) => (),
+            (_, Metadata::ScriptLangTags(_)) => {
+                ctx.report("only 'slng' or 'dlng' tags use ScriptLangTag data")
+            }
         }
+        self.data.validate_impl(ctx);
     }
 
     fn compute_data_len(&self) -> usize {
@@ -93,7 +109,17 @@ impl FontWrite for Metadata {
 }
 
 impl Validate for Metadata {
-    fn validate_impl(&self, _ctx: &mut ValidationCtx) {}
+    fn validate_impl(&self, ctx: &mut ValidationCtx) {
+        // tags can be created without going through `ScriptLangTag::new`, e.g.
+        // by deserializing
+        if let Metadata::ScriptLangTags(langs) = self {
+            if langs.iter().any(|lang| !ScriptLangTag::is_valid(&lang.0)) {
+                ctx.report(
+                    "ScriptLangTag must not be empty, contain ',' or have surrounding spaces",
+                );
+            }
+        }
+    }
 }
 
 impl FromObjRef<read_fonts::tables::meta::Metadata<'_>> for Metadata {
